@@ -446,7 +446,7 @@ def check_dro(case):
             continue
         e = np.array(row['a0']) @ x + row['c0']
         if ny and any(row['b']):
-            e = e + np.array(row['b']) @ y
+            e = e + y(row['b'])
         cc = np.array(row['c'])
         if np.any(cc[:nz]):
             e = e + cc[:nz] @ z
